@@ -367,7 +367,7 @@ MUTANTS += [
     dict(id="c10_revert_fix_d9", props=["C10"], edits=[
         (VX, "        stats = self._CACHE_STATS.setdefault(self.uid, [0, 0, 0, 0])\n", "        stats = self._CACHE_STATS[self.uid]\n")]),
     dict(id="c10_lazy_only_at_start", props=["C10"], edits=[
-        (NP, "        if self._eager:\n            self.realsave(obj)\n", "        if self._eager or len(self.memo) > 300:\n            self.realsave(obj)\n")]),
+        (NP, "        if not self._eager:\n            self.lazywrites.append(_LazySave(obj))\n", "        if not self._eager and len(self.memo) <= 300:\n            self.lazywrites.append(_LazySave(obj))\n")]),
     dict(id="c10_getstate_drops_universes", props=["C10"], edits=[
         (BS, "    @property\n    def uid(self) -> int:", "    def __getstate__(self):\n        d = dict(self.__dict__)\n        d['_universes'] = list(d.get('_universes', []))[:1]\n        return d\n\n    @property\n    def uid(self) -> int:")]),
     dict(id="c10_tail_requeue_lost", props=["C10"], edits=[
@@ -432,4 +432,10 @@ MUTANTS += [
         (NP, "        if isinstance(obj, (type, types.FunctionType)):\n", "        if isinstance(obj, type) and obj.__module__ == '__main__':\n")]),
     dict(id="c14_revert_fix_d24", props=["C14"], edits=[
         (PU, " and hasattr(vertex, a)]", "]")]),
+    dict(id="c10_revert_fix_d25", props=["C10"], edits=[
+        (NP, "        elif not (isinstance(obj, BaseObject) and self._save_shell(obj)):\n", "        else:\n")]),
+    dict(id="c10_shell_state_never_written", props=["C10"], edits=[
+        (NP, "            if not self._eager:\n                self._queue_shell_states()\n", "")]),
+    # (dropping the memo test in _save_shell is behaviour-preserving: pickle's save_reduce itself answers an already
+    #  memoized object with POP + GET - not a mutant)
 ]
